@@ -238,11 +238,13 @@ def getLiteralStr (s : IStream) (err : Sev) : List Byte × IStream × Sev :=
   if !s1.good then (([] : List Byte), s1, err)
   else
     match s1.right with
-    | 39 :: r =>
-      let (srev, rest, esc, hitEnd) := litLoop [39] true r
-      let s2 : IStream := { s1 with left := srev ++ s1.left, right := rest, eof := hitEnd }
-      (srev.reverse, s2, if esc then err.greater .inputError else err)
-    | _ => (([] : List Byte), s1, err)
+    | c :: r =>
+      if c == 39 then
+        let (srev, rest, esc, hitEnd) := litLoop [39] true r
+        let s2 : IStream := { s1 with left := srev ++ s1.left, right := rest, eof := hitEnd }
+        (srev.reverse, s2, if esc then err.greater .inputError else err)
+      else (([] : List Byte), s1, err)
+    | [] => (([] : List Byte), s1, err)
 
 /-- `SDAI_String::STEPread`: content (empty = null string), stream, severity.  `skipws` is switched off and only
     restored when nothing was read. -/
@@ -273,6 +275,13 @@ def runWord (p : Byte → Bool) (str : List Byte) (c : Byte) (s : IStream) : Lis
     (str', c', { s with left := l, right := r, eof := hitEnd, fail := hitEnd })
   else (str, c, s)
 
+/-- a word of `p`-characters starting at the current character `c1` (already taken from the stream), then the put-back
+    of the character that ended it unless it is the closing delimiter `q`.  Returns (word, last value of `c`, stream). -/
+def scanWord (p : Byte → Bool) (q : Byte) (c1 : Byte) (s3 : IStream) : List Byte × Byte × IStream :=
+  let (strRev, c3, s5) := runWord p [] c1 s3
+  let s6 := if s5.good && c3 != q then s5.putback c3 else s5
+  (strRev.reverse, c3, s6)
+
 /-- `SDAI_Binary::ReadBinary( in, err, AssignVal = 1, needDelims )`: content (empty = null) -/
 def readBinary (cfg : LexCfg) (needDelims : Bool) (s : IStream) (err : Sev) : List Byte × IStream × Sev :=
   let s1 := s.ws
@@ -281,9 +290,7 @@ def readBinary (cfg : LexCfg) (needDelims : Bool) (s : IStream) (err : Sev) : Li
     let (c0, s2) := getInto 0 s1
     if c0 == 34 || isXDigit c0 then
       let (c1, s3, vd0) : Byte × IStream × Bool := if c0 == 34 then let p := getInto c0 s2; (p.1, p.2, false) else (c0, s2, true)
-      let (strRev, c2, s4) := runWord isXDigit [] c1 s3
-      let s5 := if s4.good && c2 != 34 then s4.putback c2 else s4
-      let str := strRev.reverse
+      let (str, c2, s5) := scanWord isXDigit 34 c1 s3
       let vd : Bool := if c2 == 34 then !vd0 else if needDelims then false else vd0
       let err1 := err.warnIf (!vd)
       let err2 := err1.warnIf (cfg.binaryRejectsEmpty && str.isEmpty)
